@@ -250,6 +250,7 @@ func main() {
 		evidenceLevel = *level
 		writeEvidence(*evidenceOut, *prop, *tier, seed, units, obls, covers, solvers, violations, knownMatched, undecided, wall, *extraJSON, eng)
 	}
+	os.RemoveAll(scratch) // the deferred removal does not run through os.Exit
 	os.Exit(exit)
 }
 
